@@ -244,6 +244,20 @@ func c20Encode(c *engine.Ctx, cs c20Case) {
 		c.Violate("later-encoding-changes-with-returned-buffer", fmt.Sprintf("%s: overwriting the returned buffer changes a later encoding", cs.Name), cs)
 		return
 	}
+	// every map iteration order (instrumented build) gives the same bytes
+	if engine.InstrumentedBuild() && hasAKA(m) {
+		bad := false
+		execs, _ := engine.ForAllMapOrders(5000, func([]int) {
+			if bx, ex := lm.Encode(); ex != nil || !bytes.Equal(bx, want) {
+				bad = true
+			}
+		})
+		c.Count("map_order_executions", execs)
+		if bad {
+			c.Violate("encode-depends-on-map-order", fmt.Sprintf("%s: the encoding changes with the map iteration order", cs.Name), cs)
+			return
+		}
+	}
 	// container level
 	var cb []byte
 	engine.Catch(func() { cb, err = lm.Payloads.Encode() })
@@ -362,4 +376,13 @@ func c20Unprotect(c *engine.Ctx, cs c20Case) {
 		return
 	}
 	c.Count("unprotect_cases", 1)
+}
+
+func hasAKA(m ref.Msg) bool {
+	for _, p := range m.P {
+		if p.T == ref.PEAP && p.EAP != nil && p.EAP.Method == 50 && len(p.EAP.AKA) > 1 {
+			return true
+		}
+	}
+	return false
 }
